@@ -71,7 +71,7 @@ class Boundary(Part):
 
     def enumerate(self, tier: str, shard: int, nshards: int) -> t.Iterable[t.Any]:
         sizes = gens.BOUNDARY_SIZES + ([65535, 65536] if tier == QUICK else gens.BIG_SIZES + [2**16 + 300, 2**20])
-        cases = msgcheck.boundary_cases(sizes)
+        cases = msgcheck.boundary_cases(sizes) + msgcheck.magic_cases()
         return cases[shard::nshards]
 
     def check(self, case: t.Any, ctx: Ctx) -> t.List[Violation]:
@@ -153,7 +153,7 @@ PROP = Property(
         "Generated: abstract messages of all 9 kinds (any controls incl. the 3 library-known ones, recursive filters of "
         "the 10 node kinds, both credential choices, ints biased to two's-complement boundaries, text/octets biased to "
         "length boundaries) packed with default PackingOptions; plus a complete sweep of every str/bytes field of every "
-        "kind over the length-boundary sizes. Oracle: unpack gives an equal plain-data projection (enum by .value, exact "
+        "kind over the length-boundary sizes and over a list of values that code tends to special-case ('*', NUL, 'dn', known OIDs, attribute names with options, normalisation-sensitive text). Oracle: unpack gives an equal plain-data projection (enum by .value, exact "
         "types; known-control raw value ignored but must be exposed as bytes), exactly the tail remains, re-pack "
         "reproduces the bytes; thorough adds an atheris campaign on message values obtained by decoding fuzzed bytes. Non-trivial = >=1 control, a field >=128 octets, filter depth >=2, an int <0 or >=2^31, an "
         "unknown result code, or an empty-but-present optional; distinct by abstract value."
